@@ -61,6 +61,14 @@ CHECKS["C08"] = dict(engine="wire", cat="exploration",
    text="a fake server injects IQs into a real connected QXmppClient: every type (get/set/result/error/absent/garbage/empty) x every IQ payload kind of the fixtures (~95, plus unknown, none, several children) x 4 (quick) / 6 (thorough) senders x 3 extension sets (none, defaults, all bundled managers), plus an id duplicating an outstanding request and an absent id; replies are counted per id on the server transcript after an XEP-0198 fence, an idle settle and a second fence: exactly one result/error addressed back for get/set, none for result/error",
    note="loopback TCP, both ends in one process; a reply later than 30 ms of silence after the fence would be missed; IQs with an invalid type make the client close the stream, which is allowed",
    tech="runtime monitoring: exactly-once counting oracle over the recorded server-side transcript of a real client session, under ASan/UBSan")
+CHECKS["C11"] = dict(engine="wire", cat="exploration",
+   text="carbon wrappers injected by a fake server into a real connected client (QXmppCarbonManagerV2 and the V1 manager): 19 outer sender classes (own bare accepted; own full JIDs, look-alike/sub/appended domains, prefix/suffix, resource tricks, contacts, server domain, leading blank rejected; case variants/empty/absent not judged) x sent/received x random inner messages from the fixture extension pool x 8 wrapper shapes (extra payloads, wrong namespaces, forwarded without message, nested, two wrappers); every message object the application sees is recorded and tied to its wrapper by unique ids/bodies; accepted ones must equal the library's own parse of the inner element and carry the forwarded flag",
+   note="loopback TCP; messages presented later than the settle window after the XEP-0198 fence would be missed",
+   tech="runtime monitoring: marker-tracking oracle over all application-visible message events of a real client session, under ASan/UBSan")
+CHECKS["C12"] = dict(engine="wire", cat="exploration",
+   text="histories over {full roster, push add/update/remove/multi from 10 sender classes, presence of 5 types from 3 resources of 7 JIDs, connection loss followed by a resumed / new-after-failed-resume / sm-less session}: exhaustive words of length <= 2 (quick) / 3 (thorough) over a 15-letter alphabet plus random histories up to length 60; after every step (XEP-0198 or ping fence) getRosterBareJids/getRosterEntry/getResources are compared with a two-map reference model and result IQs per push are counted on the server transcript",
+   note="pushes from other own resources, the bare domain and case variants follow the observed acknowledgement; the view while disconnected is not judged",
+   tech="runtime monitoring: executable reference model stepped alongside a real client session (state comparison at fenced quiescent points), under ASan/UBSan")
 REASON_TODO = "check not built yet in this session (planned, see DESIGN.md §2)"
 
 def main():
